@@ -1,6 +1,6 @@
 (* C19 - Pruning removes exactly the members no schema describes. *)
 From Coq Require Import List ZArith Bool.
-From Verif Require Import Base.Sx Base.GoVal Schema.Ast Schema.Pipeline Schema.Post Schema.PostFacts.
+From Verif Require Import Base.Sx Base.GoVal Schema.Ast Schema.Pipeline Schema.Post Schema.PostFacts Schema.PostTree.
 Import ListNotations.
 Open Scope Z_scope.
 
@@ -28,3 +28,29 @@ Theorem C19_array_elements_keep_their_records : forall r sl i o e,
   In e (r_fields r) \/ In e (r_fields o) -> In e (r_fields (merge_for_slice r sl i o)).
 Proof. exact merge_for_slice_fields. Qed.
 Print Assumptions C19_array_elements_keep_their_records.
+
+(* the same holds at every nesting level: pruning an object prunes every member that stays, with no bound on depth
+   (the fuel of the model is never the reason for an answer) *)
+Theorem C19_prune_at_every_level : forall r id m,
+  prune r (VObj id m) =
+  VObj id (map (fun kv => (fst kv, prune r (snd kv))) (filter (fun kv => has_field_entry r id (fst kv)) m)).
+Proof. exact prune_obj_eq. Qed.
+Print Assumptions C19_prune_at_every_level.
+
+Theorem C19_prune_array_elementwise : forall r sl l, prune r (VArr sl l) = VArr sl (map (prune r) l).
+Proof. exact prune_arr_eq. Qed.
+Print Assumptions C19_prune_array_elementwise.
+
+Theorem C19_prune_leaves_scalars : forall r v, is_container v = false -> prune r v = v.
+Proof. exact prune_scalar_eq. Qed.
+Print Assumptions C19_prune_leaves_scalars.
+
+(* nothing is ever added, renamed, reordered or altered: the result is the instance with members removed *)
+Theorem C19_prune_only_removes_members : forall r d, sub_keys (prune r d) d.
+Proof. exact prune_sub_keys. Qed.
+Print Assumptions C19_prune_only_removes_members.
+
+(* pruning what was pruned (with the same result) removes nothing more *)
+Theorem C19_prune_idempotent : forall r d, prune r (prune r d) = prune r d.
+Proof. exact prune_idem. Qed.
+Print Assumptions C19_prune_idempotent.
